@@ -8,11 +8,12 @@ Local Open Scope N_scope.
 
 Section Hist.
 Variable anchor0 : hash.
+Variable base : list hash.            (* hashes of the preloaded chain *)
 Variable G : list header.             (* all headers of the history *)
 Variable rk : hash -> nat.
 Hypothesis Grk : forall x, In x G -> (rk (hp x) < rk (hh x))%nat.
 Hypothesis Gcons : forall x y, In x G -> In y G -> hh x = hh y -> x = y.
-Hypothesis Gpos : forall x, In x G -> (0 < hw x)%Z /\ hh x <> anchor0.
+Hypothesis Gpos : forall x, In x G -> (0 < hw x)%Z.
 
 (* ---- spec side *)
 Lemma find_header_In D x : incl D G -> In x D -> find_header D (hh x) = Some x.
@@ -57,8 +58,10 @@ Proof. unfold cweight. induction a as [|x r IH]; cbn; [lia|]. cbn in IH. rewrite
 Record link (D : list header) (p : dict hash) (w : dict Z) (a : hash) : Prop := {
   l_pD : forall h q, dget h p = Some q -> exists x, In x D /\ hh x = h /\ hp x = q;
   l_Dp : forall x, In x D -> dget (hh x) p = Some (hp x) \/ (rk (hh x) <= rk a)%nat;
-  l_w : forall x, In x D -> dget (hh x) w = Some (hw x);
-  l_wD : forall h z, dget h w = Some z -> exists x, In x D /\ hh x = h /\ hw x = z
+  (* the weight of a header at or below the anchor may be missing (preloaded, or skipped as the anchor itself) *)
+  l_w : forall x, In x D -> dget (hh x) w = Some (hw x) \/ (rk (hh x) <= rk a)%nat;
+  l_wD : forall h z, dget h w = Some z -> exists x, In x D /\ hh x = h /\ hw x = z;
+  l_pw : forall h, kn p h -> dget h w <> None
 }.
 
 Section Link.
@@ -66,14 +69,20 @@ Variables (D : list header) (p : dict hash) (w : dict Z) (a : hash).
 Hypothesis HD : incl D G.
 Hypothesis L : link D p w a.
 
-Lemma link_weight h : weight_or_0 w h = spec_weight D h.
+Lemma link_weight h : (rk a < rk h)%nat -> weight_or_0 w h = spec_weight D h.
 Proof.
-  unfold weight_or_0, spec_weight. destruct (dget h w) as [z|] eqn:E.
+  intros Hr. unfold weight_or_0, spec_weight. destruct (dget h w) as [z|] eqn:E.
   - destruct (l_wD _ _ _ _ L _ _ E) as (x & Hx & <- & <-). now rewrite (find_header_In D x HD Hx).
-  - rewrite find_header_None; [reflexivity|]. intros x Hx <-. rewrite (l_w _ _ _ _ L _ Hx) in E. discriminate.
+  - rewrite find_header_None; [reflexivity|]. intros x Hx <-.
+    destruct (l_w _ _ _ _ L _ Hx) as [H|H]; [rewrite H in E; discriminate|lia].
 Qed.
-Lemma link_chain_weight c : chain_weight w c = cweight D c.
-Proof. unfold chain_weight, cweight. induction c as [|h r IH]; cbn; [reflexivity|]. now rewrite IH, link_weight. Qed.
+Lemma link_chain_weight b c : is_chain D b c -> (rk a <= rk b)%nat -> chain_weight w c = cweight D c.
+Proof.
+  intros Hc Hr. pose proof (is_chain_rank D HD _ _ Hc) as Hrk. clear Hc.
+  unfold chain_weight, cweight. induction c as [|h r IH]; cbn; [reflexivity|].
+  rewrite IH by (intros x Hx; apply Hrk; now right). rewrite link_weight; [reflexivity|].
+  specialize (Hrk h (or_introl eq_refl)). lia.
+Qed.
 Lemma link_weight_nonneg h : (0 <= weight_or_0 w h)%Z.
 Proof.
   unfold weight_or_0. destruct (dget h w) as [z|] eqn:E; [|lia].
@@ -81,9 +90,9 @@ Proof.
 Qed.
 Lemma link_weight_pos h : kn p h -> (0 < weight_or_0 w h)%Z.
 Proof.
-  unfold kn. intros K. destruct (dget h p) as [q|] eqn:E; [|congruence].
-  destruct (l_pD _ _ _ _ L _ _ E) as (x & Hx & <- & _). unfold weight_or_0.
-  rewrite (l_w _ _ _ _ L _ Hx). apply HD in Hx. apply Gpos in Hx. lia.
+  intros K. pose proof (l_pw _ _ _ _ L _ K) as Hw. unfold weight_or_0.
+  destruct (dget h w) as [z|] eqn:E; [|congruence].
+  destruct (l_wD _ _ _ _ L _ _ E) as (x & Hx & _ & <-). apply HD in Hx. apply Gpos in Hx. lia.
 Qed.
 Lemma link_ranked : ranked rk p.
 Proof.
@@ -136,13 +145,12 @@ Record BI (bc : blockchain) (D : list header) (allops : list op) : Prop := {
   b_unk : ~ kn (pl (bc_cf bc)) (bc_parent bc);
   b_link : link D (pl (bc_cf bc)) (bc_w bc) (bc_parent bc);
   b_anchor : bc_parent bc = last (map fst3 (bc_locked bc)) anchor0;
-  b_anc_in : bc_parent bc = anchor0 \/ exists x, In x D /\ hh x = bc_parent bc;
   b_cache : exists c, bc_cache bc = Some c /\
      (c = [] \/ ppath (pl (bc_cf bc)) (kn (pl (bc_cf bc))) (hd 0 c) (c ++ [bc_parent bc])) /\
      heaviest D (bc_parent bc) (rev c) /\
      is_chain D anchor0 (chain_of bc c) /\
      maps_agree (chain_of bc c) (bc_h2i bc) /\
-     apply_ops allops [] = Some (chain_of bc c)
+     apply_ops allops base = Some (chain_of bc c)
 }.
 
 Lemma nth_last_len {A} (l : list A) k d d' : length l = S k -> nth k l d = last l d'.
@@ -156,7 +164,7 @@ Qed.
 Lemma BI_good bc D allops s c :
   BI bc D allops -> bc_cache bc = Some c ->
   s_chain s = chain_of bc c -> s_locked s = length (bc_locked bc) -> s_h2i s = bc_h2i bc ->
-  good_snapshot anchor0 D allops s.
+  good_snapshot anchor0 base D allops s.
 Proof.
   intros B Hc Es El Eh. destruct (b_cache _ _ _ B) as (c0 & Hc0 & _ & Hheavy & Hchain & Hmaps & Hops).
   rewrite Hc in Hc0. inversion Hc0; subst c0. unfold good_snapshot. rewrite Es, Eh.
@@ -212,7 +220,7 @@ Qed.
 Lemma deliver_step bc D allops hs prio pref :
   BI bc D allops -> incl (D ++ hs) G ->
   exists s bc', step (Deliver hs prio pref) bc = inl (s, bc') /\
-     good_snapshot anchor0 (D ++ hs) (allops ++ ops_of s) s /\ BI bc' (D ++ hs) (allops ++ ops_of s).
+     good_snapshot anchor0 base (D ++ hs) (allops ++ ops_of s) s /\ BI bc' (D ++ hs) (allops ++ ops_of s).
 Proof.
   intros B HG.
   assert (HD : incl D G) by (intros x Hx; apply HG; rewrite in_app_iff; now left).
@@ -234,20 +242,17 @@ Proof.
   { intros K. unfold kn in K. destruct (dget a p') as [q|] eqn:E; [|congruence]. destruct (R3 _ _ E) as [H|H].
     - apply (b_unk _ _ _ B). fold cf a. unfold kn. congruence.
     - destruct (Hnodes _ _ H) as (x & Hx & Ex & _). apply Hhs' in Hx. tauto. }
-  (* a delivered header is either old or one of the headers actually handed to the finder *)
-  assert (Hsplit : forall x, In x (D ++ hs) -> In x D \/ In x hs').
+  (* a delivered header is old, or one of the headers actually handed to the finder, or the anchor's own header *)
+  assert (Hsplit : forall x, In x (D ++ hs) -> In x D \/ In x hs' \/ hh x = a).
   { intros x Hx. apply in_app_iff in Hx. destruct Hx as [Hx|Hx]; [now left|].
-    destruct (N.eq_dec (hh x) a) as [E|E]; [|right; apply Hhs'; auto].
-    left. destruct (b_anc_in _ _ _ B) as [Ea|(y & Hy & Ey)].
-    - exfalso. apply (proj2 (Gpos x (Hhs _ Hx))). rewrite E. exact Ea.
-    - replace x with y; [exact Hy|]. apply Gcons; auto. rewrite E. exact Ey. }
+    destruct (N.eq_dec (hh x) a) as [E|E]; [right; now right|right; left; apply Hhs'; auto]. }
   assert (Hhs'G : incl hs' G) by (intros x Hx; apply Hhs; now apply Hhs').
   assert (L' : link (D ++ hs) p' w' a).
   { constructor.
     - intros h q E. destruct (R3 _ _ E) as [H|H].
       + destruct (l_pD _ _ _ _ L0 _ _ H) as (x & Hx & ? & ?). exists x. rewrite in_app_iff. auto.
       + destruct (Hnodes _ _ H) as (x & Hx & ? & ?). exists x. rewrite in_app_iff. apply Hhs' in Hx. tauto.
-    - intros x Hx. destruct (Hsplit _ Hx) as [Hx'|Hx'].
+    - intros x Hx. destruct (Hsplit _ Hx) as [Hx'|[Hx'|Hx']].
       + destruct (l_Dp _ _ _ _ L0 _ Hx') as [H|H]; [left; now apply R1|now right].
       + left. assert (K : dget (hh x) p' <> None).
         { apply (R4 (hh x) (hp x)). unfold nodes. apply in_map_iff. exists x. auto. }
@@ -257,20 +262,28 @@ Proof.
           assert (y = x) by (apply Gcons; auto). subst y. now symmetry.
         * destruct (Hnodes _ _ H) as (y & Hy & Ey1 & Ey2).
           assert (y = x) by (apply Gcons; auto). subst y. now symmetry.
+      + right. rewrite Hx'. apply le_n.
     - intros x Hx.
-      assert (K : dget (hh x) w' <> None).
-      { destruct (Hsplit _ Hx) as [Hx'|Hx'].
-        - apply set_weights_keeps. rewrite (l_w _ _ _ _ L0 _ Hx'). discriminate.
-        - now apply set_weights_has. }
       assert (HxG : In x G) by (now apply HG).
-      destruct (dget (hh x) w') as [z|] eqn:E; [|congruence]. f_equal.
-      destruct (set_weights_get _ _ _ _ E) as [H|(y & Hy & Ey1 & Ey2)].
-      + destruct (l_wD _ _ _ _ L0 _ _ H) as (y & Hy & Ey1 & Ey2).
-        assert (y = x) by (apply Gcons; auto). subst y. now symmetry.
-      + assert (y = x) by (apply Gcons; auto). subst y. now symmetry.
+      assert (Hval : forall z, dget (hh x) w' = Some z -> z = hw x).
+      { intros z E. destruct (set_weights_get _ _ _ _ E) as [H|(y & Hy & Ey1 & Ey2)].
+        + destruct (l_wD _ _ _ _ L0 _ _ H) as (y & Hy & Ey1 & Ey2).
+          assert (y = x) by (apply Gcons; auto). subst y. now symmetry.
+        + assert (y = x) by (apply Gcons; auto). subst y. now symmetry. }
+      assert (Hhave : dget (hh x) w' <> None -> dget (hh x) w' = Some (hw x)).
+      { intros K. destruct (dget (hh x) w') as [z|] eqn:E; [|congruence]. f_equal. now apply Hval. }
+      destruct (Hsplit _ Hx) as [Hx'|[Hx'|Hx']].
+      + destruct (l_w _ _ _ _ L0 _ Hx') as [H|H]; [|now right].
+        left. apply Hhave. apply set_weights_keeps. rewrite H. discriminate.
+      + left. apply Hhave. now apply set_weights_has.
+      + right. rewrite Hx'. apply le_n.
     - intros h z E. destruct (set_weights_get _ _ _ _ E) as [H|(y & Hy & Ey1 & Ey2)].
       + destruct (l_wD _ _ _ _ L0 _ _ H) as (y & Hy & ? & ?). exists y. rewrite in_app_iff. auto.
-      + exists y. rewrite in_app_iff. apply Hhs' in Hy. tauto. }
+      + exists y. rewrite in_app_iff. apply Hhs' in Hy. tauto.
+    - intros h K. unfold kn in K. destruct (dget h p') as [q|] eqn:E; [|congruence].
+      destruct (R3 _ _ E) as [H|H].
+      + apply set_weights_keeps. apply (l_pw _ _ _ _ L0). unfold kn. fold cf. congruence.
+      + destruct (Hnodes _ _ H) as (y & Hy & <- & _). now apply set_weights_has. }
   assert (Hrk' : ranked rk p') by exact (link_ranked _ _ _ _ HG L').
   destruct (load_nodes_ok rk cf nodes p' N0 F0 Hreg Hrk') with (prio := prio) as (cf' & Hload & F' & Epl').
   rewrite <- Epl' in *.
@@ -279,7 +292,9 @@ Proof.
   { intros h. exact (link_weight_pos _ _ _ _ HG L' h). }
   assert (Hheavy' : heaviest (D ++ hs) a (rev c')).
   { split; [exact (pchain_is_chain _ _ _ _ L' _ _ Hpc)|].
-    intros c'' Hc''. rewrite <- !(link_chain_weight _ _ _ _ HG L'). apply Hmax.
+    intros c'' Hc''.
+    rewrite <- (link_chain_weight _ _ _ _ HG L' _ _ Hc'' (le_n _)).
+    rewrite <- (link_chain_weight _ _ _ _ HG L' _ _ (pchain_is_chain _ _ _ _ L' _ _ Hpc) (le_n _)). apply Hmax.
     exact (is_chain_pchain _ _ _ _ HG L' _ _ Hc'' (le_n _)). }
   assert (Hcp' : c = [] \/ ppath (pl cf') (kn (pl cf')) (hd 0 c) (c ++ [a])).
   { destruct Hcp as [->|Hp]; [now left|right]. eapply ppath_grow; eauto. now rewrite last_app_ne by discriminate. }
@@ -320,7 +335,6 @@ Proof.
     - exact Hunk'.
     - exact L'.
     - apply (b_anchor _ _ _ B).
-    - destruct (b_anc_in _ _ _ B) as [H|(x & Hx & Ex)]; [now left|right]. exists x. rewrite in_app_iff. auto.
     - exists c'. split; [reflexivity|]. split; [exact Hc'p|]. split; [exact Hheavy'|].
       unfold chain_of. cbn [bc_locked]. fold Lk. split; [exact Hchain'|]. split.
       + rewrite Ec''. exact Hmaps'.
@@ -433,7 +447,7 @@ Qed.
 Lemma lock_step bc D allops n prio pref :
   BI bc D allops -> incl D G ->
   (exists s bc', step (Lock n prio pref) bc = inl (s, bc') /\
-       good_snapshot anchor0 D (allops ++ ops_of s) s /\ BI bc' D (allops ++ ops_of s)) \/
+       good_snapshot anchor0 base D (allops ++ ops_of s) s /\ BI bc' D (allops ++ ops_of s)) \/
   step (Lock n prio pref) bc = inr OutOfRange.
 Proof.
   intros B HD. destruct (b_cache _ _ _ B) as (c & Hc & Hcp & Hheavy & Hchain & Hmaps & Hops).
@@ -502,8 +516,11 @@ Proof.
         - intros x Hx. destruct (l_Dp _ _ _ _ L0 _ Hx) as [H|H].
           + destruct (in_dec N.eq_dec (hh x) LKs) as [Hi|Hi]; [right; now apply RkL|left; now apply P2].
           + right. eapply Nat.le_trans; [exact H|exact RkA].
-        - apply (l_w _ _ _ _ L0).
-        - apply (l_wD _ _ _ _ L0). }
+        - intros x Hx. destruct (l_w _ _ _ _ L0 _ Hx) as [H|H]; [now left|right].
+          eapply Nat.le_trans; [exact H|exact RkA].
+        - apply (l_wD _ _ _ _ L0).
+        - intros h K. apply (l_pw _ _ _ _ L0). unfold kn in *. destruct (dget h (pl cf'')) as [q|] eqn:E; [|congruence].
+          destruct (P1 _ _ E) as [E1 _]. fold cf. congruence. }
       (* the rest of the reported chain is a heaviest chain from the new anchor *)
       assert (Hheavy'' : heaviest D a' (rev c'')).
       { rewrite Etail. split; [exact HchT|]. intros c1 Hc1.
@@ -546,7 +563,6 @@ Proof.
         - exact L''.
         - rewrite map_app. unfold fst3 in *. rewrite Hitems. rewrite last_app_ne by exact HLKne.
           unfold a'. apply last_default. exact HLKne.
-        - right. apply (is_chain_hashes _ _ _ HchL). exact Ha'in.
         - exists c''. split; [reflexivity|]. split; [exact Hcp''|].
           split; [exact Hheavy''|]. fold bc3. rewrite Echain. auto. }
       split; [|exact B3].
@@ -556,7 +572,7 @@ Qed.
 Lemma run_from_good : forall evs bc D allops,
   BI bc D allops -> incl (D ++ all_headers evs) G ->
   forall tr st, run_from bc evs = (tr, st) ->
-  (st = Done \/ st = OutOfRange) /\ good_trace anchor0 D allops evs tr.
+  (st = Done \/ st = OutOfRange) /\ good_trace anchor0 base D allops evs tr.
 Proof.
   induction evs as [|ev r IH]; intros bc D allops B HG tr st Hrun.
   - cbn in Hrun. inversion Hrun; subst. split; [now left|exact I].
@@ -578,55 +594,97 @@ Proof.
       * rewrite Hstop in Hrun. inversion Hrun; subst. split; [now right|exact I].
 Qed.
 
-Definition bc_init := mkBC anchor0 [] [] [] empty_finder (Some []).
-Lemma step_init ev : step ev (new_blockchain anchor0) = step ev bc_init.
+Definition pre_tuple (x : header) : hash * hash * option Z := (hh x, hp x, Some (hw x)).
+Definition pre_index (pre : list header) : dict Z :=
+  fold_left (fun m ix => dset (hh (snd ix)) (fst ix) m) (enumerate 0%Z pre) [].
+Definition bc_pre (pre : list header) :=
+  mkBC (last (map hh pre) anchor0) (map pre_tuple pre) (pre_index pre) [] empty_finder (Some []).
+Lemma step_init pre ev : step ev (preload_locked_blocks pre (new_blockchain anchor0)) = step ev (bc_pre pre).
 Proof.
-  assert (E1 : forall pref, longest_local pref (new_blockchain anchor0) = Ret ([], bc_init)) by reflexivity.
-  assert (E2 : forall pref, longest_local pref bc_init = Ret ([], bc_init)) by reflexivity.
+  assert (E1 : forall pref, longest_local pref (preload_locked_blocks pre (new_blockchain anchor0)) = Ret ([], bc_pre pre))
+    by reflexivity.
+  assert (E2 : forall pref, longest_local pref (bc_pre pre) = Ret ([], bc_pre pre)) by reflexivity.
   destruct ev as [hs prio pref|n prio pref]; unfold step.
   - unfold add_headers. now rewrite E1, E2.
   - unfold lock_to_index. now rewrite E1, E2.
 Qed.
-Lemma BI_init : BI bc_init [] [].
+Lemma chain_headers_is_chain : forall pre a, chain_headers a pre -> is_chain pre a (map hh pre).
 Proof.
-  constructor; cbn.
+  induction pre as [|x r IH]; intros a Hc; [constructor|]. destruct Hc as [E Hc]. cbn [map].
+  econstructor; [now left|exact E|]. eapply is_chain_incl; [|apply IH; exact Hc]. intros y Hy. now right.
+Qed.
+Lemma pre_index_agree : forall pre, NoDup (map hh pre) -> maps_agree (map hh pre) (pre_index pre).
+Proof.
+  unfold pre_index. induction pre as [|x l IH] using rev_ind; intros Hnd.
+  - split; [intros i h E; destruct i; discriminate|intros h z E; discriminate].
+  - rewrite map_app in *. cbn [map] in *. rewrite enumerate_snoc, fold_left_app. cbn [fold_left fst snd].
+    replace (0 + Z.of_nat (length l))%Z with (Z.of_nat (length (map hh l))) by (rewrite map_length; lia).
+    apply maps_agree_snoc.
+    + apply IH. apply NoDup_remove_1 in Hnd. now rewrite app_nil_r in Hnd.
+    + apply NoDup_remove_2 in Hnd. now rewrite app_nil_r in Hnd.
+Qed.
+Lemma BI_pre pre : incl pre G -> chain_headers anchor0 pre -> base = map hh pre -> BI (bc_pre pre) pre [].
+Proof.
+  intros HP Hch Hb.
+  pose proof (chain_headers_is_chain _ _ Hch) as Hic.
+  destruct (is_chain_last_rank pre HP _ _ Hic) as [RkA RkL].
+  set (a := last (map hh pre) anchor0) in *.
+  assert (Hlow : forall x, In x pre -> (rk (hh x) <= rk a)%nat) by (intros x Hx; apply RkL; now apply in_map).
+  constructor; cbn [bc_cf bc_parent bc_locked bc_w bc_h2i bc_cache bc_pre pl empty_finder]; fold a.
   - exact finder_ok_empty.
   - intros H. apply H. reflexivity.
-  - constructor; cbn; [discriminate|intros x []|intros x []|discriminate].
-  - reflexivity.
-  - now left.
-  - exists []. split; [reflexivity|]. split; [now left|]. split; [|split; [constructor|split; [|reflexivity]]].
-    + split; [constructor|]. intros c' Hc'. inversion Hc'; subst; [cbn; lia|]. destruct H.
-    + split; [intros i h E; destruct i; discriminate|intros h z E; discriminate].
+  - constructor.
+    + intros h q E. discriminate.
+    + intros x Hx. right. now apply Hlow.
+    + intros x Hx. right. now apply Hlow.
+    + intros h z E. discriminate.
+    + intros h K. exfalso. apply K. reflexivity.
+  - unfold a. f_equal. rewrite map_map. apply map_ext. reflexivity.
+  - exists []. split; [reflexivity|]. split; [now left|].
+    assert (Ech : chain_of (bc_pre pre) [] = map hh pre).
+    { unfold chain_of. cbn [bc_locked bc_pre rev]. rewrite app_nil_r, map_map. apply map_ext. reflexivity. }
+    rewrite Ech. split; [|split; [exact Hic|split]].
+    + split; [constructor|]. intros c' Hc'. destruct c' as [|h r]; [cbn; lia|]. exfalso.
+      pose proof (is_chain_rank pre HP _ _ Hc' h (or_introl eq_refl)) as Hr.
+      destruct (is_chain_hashes _ _ _ Hc' h (or_introl eq_refl)) as (x & Hx & Ex). apply Hlow in Hx. rewrite Ex in Hx. lia.
+    + apply pre_index_agree. eapply is_chain_NoDup; eauto.
+    + cbn. now rewrite Hb.
 Qed.
 End Hist.
 
-Theorem full_history : forall (anchor : hash) (evs : list event),
-  wf_headers anchor (all_headers evs) ->
-  forall tr st, run anchor evs = (tr, st) ->
-  (st = Done \/ st = OutOfRange) /\ good_trace anchor [] [] evs tr.
+Theorem full_history : forall (anchor : hash) (pre : list header) (evs : list event),
+  wf_headers (pre ++ all_headers evs) -> chain_headers anchor pre ->
+  forall tr st, run_pre anchor pre evs = (tr, st) ->
+  (st = Done \/ st = OutOfRange) /\ good_trace anchor (map hh pre) pre [] evs tr.
 Proof.
-  intros anchor evs ((rk & Hrk) & Hcons & Hpos) tr st Hrun.
-  unfold run in Hrun.
-  assert (Hrun' : run_from (bc_init anchor) evs = (tr, st)).
+  intros anchor pre evs ((rk & Hrk) & Hcons & Hpos) Hch tr st Hrun.
+  unfold run_pre in Hrun.
+  assert (Hrun' : run_from (bc_pre anchor pre) evs = (tr, st)).
   { destruct evs as [|ev r]; [exact Hrun|]. cbn [run_from] in *. now rewrite <- (step_init anchor). }
-  apply (run_from_good anchor (all_headers evs) rk Hrk Hcons Hpos evs (bc_init anchor) [] []).
-  - exact (BI_init anchor (all_headers evs) rk Hpos).
+  apply (run_from_good anchor (map hh pre) (pre ++ all_headers evs) rk Hrk Hcons Hpos evs (bc_pre anchor pre) pre []).
+  - apply (BI_pre anchor (map hh pre) (pre ++ all_headers evs) rk Hrk pre); auto.
+    intros x Hx. rewrite in_app_iff. now left.
   - intros x Hx. exact Hx.
   - exact Hrun'.
 Qed.
 
-(* the k-th snapshot of a good trace, seen on its own *)
-Lemma good_trace_nth : forall evs tr anchor D ops, good_trace anchor D ops evs tr ->
+(* a BlockChain that is not preloaded *)
+Corollary full_history_plain : forall (anchor : hash) (evs : list event),
+  wf_headers (all_headers evs) ->
+  forall tr st, run anchor evs = (tr, st) ->
+  (st = Done \/ st = OutOfRange) /\ good_trace anchor [] [] [] evs tr.
+Proof. intros anchor evs Hwf tr st Hrun. exact (full_history anchor [] evs Hwf I tr st Hrun). Qed.
+
+Lemma good_trace_nth : forall evs tr anchor base D ops, good_trace anchor base D ops evs tr ->
   forall k s, nth_error tr k = Some s -> (k < length evs)%nat ->
-  good_snapshot anchor (D ++ all_headers (firstn (S k) evs)) (ops ++ flat_map ops_of (firstn (S k) tr)) s.
+  good_snapshot anchor base (D ++ all_headers (firstn (S k) evs)) (ops ++ flat_map ops_of (firstn (S k) tr)) s.
 Proof.
-  induction evs as [|ev r IH]; intros tr anchor D ops Hg k s Hn Hk; [cbn in Hk; lia|].
+  induction evs as [|ev r IH]; intros tr anchor base D ops Hg k s Hn Hk; [cbn in Hk; lia|].
   destruct tr as [|s0 tr']; [destruct k; discriminate|]. cbn [good_trace] in Hg. destruct Hg as [G0 G1].
   destruct k as [|k'].
   - cbn in Hn. inversion Hn; subst s0. cbn [firstn all_headers flat_map]. now rewrite !app_nil_r.
   - cbn [nth_error] in Hn. cbn [length] in Hk.
-    specialize (IH tr' anchor _ _ G1 k' s Hn ltac:(lia)).
+    specialize (IH tr' anchor base _ _ G1 k' s Hn ltac:(lia)).
     change (firstn (S (S k')) (ev :: r)) with (ev :: firstn (S k') r).
     change (firstn (S (S k')) (s0 :: tr')) with (s0 :: firstn (S k') tr').
     cbn [all_headers flat_map]. fold (all_headers (firstn (S k') r)). rewrite !app_assoc. exact IH.
@@ -634,24 +692,25 @@ Qed.
 
 
 Section Corollaries.
-Variables (anchor : hash) (evs : list event) (tr : list snapshot) (st : stop).
-Hypothesis Hwf : wf_headers anchor (all_headers evs).
-Hypothesis Hrun : run anchor evs = (tr, st).
+Variables (anchor : hash) (pre : list header) (evs : list event) (tr : list snapshot) (st : stop).
+Hypothesis Hwf : wf_headers (pre ++ all_headers evs).
+Hypothesis Hpre : chain_headers anchor pre.
+Hypothesis Hrun : run_pre anchor pre evs = (tr, st).
 Variables (k : nat) (s : snapshot).
 Hypothesis Hs : nth_error tr k = Some s.
 Hypothesis Hk : (k < length evs)%nat.
-Let D := all_headers (firstn (S k) evs).
+Let D := pre ++ all_headers (firstn (S k) evs).
 
-Lemma snapshot_good : good_snapshot anchor D (flat_map ops_of (firstn (S k) tr)) s.
+Lemma snapshot_good : good_snapshot anchor (map hh pre) D (flat_map ops_of (firstn (S k) tr)) s.
 Proof.
-  destruct (full_history anchor evs Hwf tr st Hrun) as [_ Hg].
-  exact (good_trace_nth evs tr anchor [] [] Hg k s Hs Hk).
+  destruct (full_history anchor pre evs Hwf Hpre tr st Hrun) as [_ Hg].
+  exact (good_trace_nth evs tr anchor (map hh pre) pre [] Hg k s Hs Hk).
 Qed.
 Lemma snapshot_chain_heaviest : is_chain D anchor (s_chain s) /\
   heaviest D (snapshot_anchor anchor s) (skipn (s_locked s) (s_chain s)).
 Proof. split; apply snapshot_good. Qed.
 Lemma snapshot_maps : maps_agree (s_chain s) (s_h2i s).
 Proof. apply snapshot_good. Qed.
-Lemma snapshot_ops : apply_ops (flat_map ops_of (firstn (S k) tr)) [] = Some (s_chain s).
+Lemma snapshot_ops : apply_ops (flat_map ops_of (firstn (S k) tr)) (map hh pre) = Some (s_chain s).
 Proof. apply snapshot_good. Qed.
 End Corollaries.
